@@ -8,6 +8,9 @@
 //!          unsub                                 the outer subscription
 //!          gunsub <key>                          the probe of that group unsubscribes
 //!          q kc                                  `kc=<n>`: calls of the key function so far
+//!          iter <k>                              (C16) a COLD producer instead of the hot subject:
+//!                                                `from_iter(counting 0..k).group_by(key)[.take(n)]` is subscribed and
+//!                                                runs inside this event; prints `o=<log> pulls=<items pulled>`
 //!
 //! The outer probe logs `G<key>` and, unless skipped, subscribes a group probe
 //! *during* the announcement; a group probe logs `g<key>:N5 / g<key>:C / g<key>:E7`;
@@ -40,6 +43,39 @@ impl Observer<Val, i64> for GProbe {
   }
   fn is_finished(&self) -> bool {
     false
+  }
+}
+
+/// the log of an `iter` event: the terminal fan-out at the end (`g<k>:C`* then `C`) is sorted (HashMap drain order)
+fn fmt_iter_event(mut log: Vec<String>) -> String {
+  let mut end = log.len();
+  if end > 0 && (log[end - 1] == "C" || log[end - 1].starts_with('E')) {
+    end -= 1;
+  }
+  let mut start = end;
+  while start > 0 && log[start - 1].starts_with('g') && log[start - 1].ends_with(":C") {
+    start -= 1;
+  }
+  log[start..end].sort();
+  format!("o={}", log.join(";"))
+}
+
+/// an iterator that counts how many items were pulled out of it
+struct CountIter {
+  next: i64,
+  end: i64,
+  pulls: Arc<Mutex<usize>>,
+}
+impl Iterator for CountIter {
+  type Item = Val;
+  fn next(&mut self) -> Option<Val> {
+    if self.next < self.end {
+      self.next += 1;
+      *self.pulls.lock().unwrap() += 1;
+      Some(Val::Int(self.next - 1))
+    } else {
+      None
+    }
   }
 }
 
@@ -118,6 +154,28 @@ macro_rules! impl_suite {
         match ev[0].atom() {
           "q" => {
             out.emit(k, format!("kc={}", *kc.lock().unwrap()));
+            continue;
+          }
+          "iter" => {
+            // a cold producer in front of a fresh group_by (same key function, same outer chain, same probe kind)
+            let pulls = Arc::new(Mutex::new(0usize));
+            let it = CountIter { next: 0, end: ev[1].int(), pulls: pulls.clone() };
+            let keyf2 = fn1(case.field("key")[0].atom());
+            let skip2: Vec<Val> =
+              if case.has("skip") { case.field("skip").iter().map(Val::parse).collect() } else { vec![] };
+            let probe2 = $probe { log: log.clone(), skip: skip2, handles: handles.clone() };
+            // (from_iter never errors: its error type is Infallible; the probes' error type is i64)
+            let grouped2 = observable::from_iter(it)
+              .on_error_map(|_e: std::convert::Infallible| 0i64)
+              .group_by::<_, _, $subject>(move |v: &Val| keyf2(v.clone()));
+            if case.has("otake") {
+              let n = case.field("otake")[0].nat();
+              let _ = ObservableExt::<KeyObservable<Val, $subject>, i64>::take(grouped2, n).actual_subscribe(probe2);
+            } else {
+              let _ = grouped2.actual_subscribe(probe2);
+            }
+            let line = format!("{} pulls={}", fmt_iter_event(drain(&log)), *pulls.lock().unwrap());
+            out.emit(k, line);
             continue;
           }
           "emit" => {
